@@ -1,14 +1,15 @@
 import LaunchpadModel.Lemmas.CollectionFull
 import LaunchpadModel.Props.C09
 /-!
-# Refinement theorems: the collection composite `LP.CF` (Model/CollectionFull.lean) refines the aspect models — C09 (and C19)
+# Refinement theorems: the collection composite `LP.CF` (Model/CollectionFull.lean) refines the aspect models — C09
 
 For each aspect: a projection of the composite state, a translation of composite ops into aspect ops *whose witnesses
 are computed from the composite state*, the one-step simulation for ALL states and ops, its lift to runs, and the
 headline theorems of the property restated for composite runs (`Cxx_full_*`).
 
-The refinements to C10 and C20 live in `Props/CompositeCollectionRoyalty.lean` / `Props/CompositeCollectionMigrate.lean`:
-`Props/C09.lean`, `Props/C10.lean` and `Props/C20.lean` each declare `LP.run_cons`, so no module can import two of them.
+The refinements to C10, C19 and C20 live in `Props/CompositeCollectionRoyalty.lean`, `Props/CompositeCollectionTrading.lean`,
+`Props/CompositeCollectionMigrate.lean`: `Props/C09.lean`, `Props/C10.lean` and `Props/C20.lean` each declare `LP.run_cons`, and
+`Props/C09.lean` clashes with `Props/C07.lean` (`LP.step'_cases`), which C19's other composite module imports.
 
 ## C09 — tokens, ids, freezes, ownership
 
@@ -44,11 +45,6 @@ def tr09 (s : State) : Op → List Sg721.Op
 def trs09 : State → List Op → List Sg721.Op
   | _, [] => []
   | s, op :: ops => tr09 s op ++ trs09 (step' s op) ops
-
-def isMigrate : Op → Bool
-  | .migrateUpdatable => true
-  | .migrateSelf => true
-  | _ => false
 
 theorem sg_step'_ok {s s' : Sg721.State} {op : Sg721.Op} (h : Sg721.step s op = .ok s') : Sg721.step' s op = s' := by
   unfold Sg721.step'; rw [h]
